@@ -13,6 +13,8 @@
 #if !defined(VITA_MATRIX_H)
 #define      VITA_MATRIX_H
 
+#include <limits>
+
 #include "kernel/gp/locus.h"
 
 namespace vita
